@@ -124,6 +124,21 @@ def o_ops(spec):
     require(abs(ev - want) <= 1e-9 * scale, lambda: f"get_expectation_value {ev} != quadratic form {want}")
     ev2 = must(lambda: expectation(get_sparse_operator(op, n_qubits=n), psi.copy()), "expectation(sparse, state)")
     require(abs(ev2 - want) <= 1e-9 * scale, lambda: f"expectation {ev2} != quadratic form {want}")
+    # the other documented forms of a state: a column vector, and a density matrix (pure or a mixture of two states)
+    import scipy.sparse as _sp
+
+    Sop = get_sparse_operator(op, n_qubits=n)
+    ev_col = must(lambda: expectation(Sop, psi.copy().reshape(-1, 1)), "expectation(sparse, column vector)")
+    require(abs(ev_col - want) <= 1e-9 * scale, lambda: f"expectation with a column vector {ev_col} != quadratic form {want}")
+    rho = np.outer(psi, psi.conj())
+    ev_rho = must(lambda: expectation(Sop, _sp.csc_matrix(rho)), "expectation(sparse, density matrix)")
+    require(abs(ev_rho - want) <= 1e-9 * scale, lambda: f"expectation with the density matrix of the state {ev_rho} != quadratic form {want}")
+    phi = rs.normal(size=2 ** n) + 1j * rs.normal(size=2 ** n)
+    phi = phi / np.linalg.norm(phi)
+    mix = 0.3 * rho + 0.7 * np.outer(phi, phi.conj())
+    want_mix = 0.3 * want + 0.7 * np.vdot(phi, R @ phi)
+    ev_mix = must(lambda: expectation(Sop, _sp.csr_matrix(mix)), "expectation(sparse, mixed density matrix)")
+    require(abs(ev_mix - want_mix) <= 1e-9 * scale, lambda: f"expectation with a mixed density matrix {ev_mix} != trace(rho M) = {want_mix}")
     ev3 = must(lambda: get_expectation_value(op, Wavefunction(psi.copy()), reverse_operator=True), "get_expectation_value(reverse)")
     want3 = np.vdot(psi, R[np.ix_(perm, perm)] @ psi)
     require(abs(ev3 - want3) <= 1e-9 * scale, lambda: f"reversed expectation {ev3} != {want3}")
